@@ -181,6 +181,9 @@ pub fn seed_texts(max: usize) -> Vec<(String, String)> {
 }
 
 fn run_c24(ctx: &mut Ctx) {
+    // a case is several generations of one grammar (the larger repository grammars take seconds
+    // each under the ascent backend); the budget is CPU time of this worker
+    crate::fw::CASE_BUDGET_MS.store(600_000, std::sync::atomic::Ordering::SeqCst);
     let dir = drv::scratch_sub(&ctx.scratch.clone(), "t");
     let thorough = ctx.tier == Tier::Thorough;
     let mut texts: Vec<(String, String)> = vec![];
@@ -299,6 +302,9 @@ fn gaps(text: &str) -> Vec<(usize, usize)> {
 }
 
 fn run_c26(ctx: &mut Ctx) {
+    // a case is several generations of one grammar (the larger repository grammars take seconds
+    // each under the ascent backend); the budget is CPU time of this worker
+    crate::fw::CASE_BUDGET_MS.store(600_000, std::sync::atomic::Ordering::SeqCst);
     let dir = drv::scratch_sub(&ctx.scratch.clone(), "t");
     let thorough = ctx.tier == Tier::Thorough;
     let fillers: Vec<&str> = if thorough { vec![" ", "\n", "\t", " // c\n", " /* c */ ", " /* /* n */ */ "] } else { vec!["\n", " // c\n", " /* /* n */ */ "] };
@@ -620,6 +626,9 @@ fn c15_text(p: &[Option<&Pred>; 6], fs: Option<&[&str]>) -> String {
 }
 
 fn run_c15(ctx: &mut Ctx) {
+    // a case is several generations of one grammar (the larger repository grammars take seconds
+    // each under the ascent backend); the budget is CPU time of this worker
+    crate::fw::CASE_BUDGET_MS.store(600_000, std::sync::atomic::Ordering::SeqCst);
     let dir = drv::scratch_sub(&ctx.scratch.clone(), "t");
     let ps = preds();
     let feature_sets: Vec<Vec<&str>> = (0..8u8).map(|m| ["f", "g", "foo-bar"].iter().enumerate().filter(|(i, _)| m & (1 << i) != 0).map(|(_, f)| *f).collect()).collect();
